@@ -332,6 +332,7 @@ class Interp:
             self.events = []
             self.conditions = []
             self._decided = {}
+            self.__dict__.pop('_order_decisions', None)
             self.depth = 0
             self.call_stack = []
             self.steps = 0
